@@ -113,8 +113,8 @@ func Walk(nc *nats.Conn) (map[string]Placement, error) {
 			return nil
 		}
 		out[k] = ne
-		if depth > 64 {
-			return fmt.Errorf("tree deeper than 64 below %s (cycle?)", ne.ID)
+		if depth > 400 {
+			return fmt.Errorf("tree deeper than 400 below %s (cycle?)", ne.ID)
 		}
 		kids, err := client.GetNodes(nc, ne.ID, "all", "", true)
 		if err != nil {
